@@ -9,7 +9,8 @@ Streams
   corr.lexctl       Lexer.match_control_line vs `lexCtl` (margins, `%%`, `##`, backslash-newline, CR/LF);
   corr.fragment     ast.PythonFragment (accept / reject; keyword) vs `fragmentAdmits`, and `HeaderOk` vs the real
                     printer on the same text - exhaustive over a header token alphabet;
-  corr.loopctx      runtime.LoopContext / LoopStack vs the Lean `LoopCtx` attributes (all n <= 6, all indices);
+  corr.loopctx      runtime.LoopContext / LoopStack vs the Lean `LoopCtx` attributes (all n <= 6, all indices) and,
+                    starting from an EMPTY LoopStack, the parent chain of a context at depth 1..5 (ends in None);
   corr.declares     the declarations written for `loop` and plain names, enable_loop on / off;
   corr.kids         the `nodes` list the real lexer hangs under every control line vs `kidsOf` (Lean);
   corr.events       the real printer calls (writeline / None / write_indented_block) for the body of generated
@@ -51,7 +52,9 @@ RULE = ("templates from the grammar of harness/c03_gen.py: control structures ne
         "body / anonymous blocks / nested defs in bodies, <% %> blocks at a uniform margin of 0-8 blanks or 1-2 tabs "
         "with multi-line string literals and nested python if/else, break / continue / return, `loop` used "
         "directly, only in an `% elif` header, only in an `% except` body, only in a python block, only in a nested "
-        "for's iterable, inside closures, loop.parent; planted exceptions boom() (Boom) and kboom() (KeyError) at "
+        "for's iterable, inside closures, loop.parent.index of nested loops and - in outermost and nested loops alike - "
+        "`loop.parent is None`, `bool(loop.parent)`, the guard `loop.parent.index if loop.parent else -1` and a walk of "
+        "the parent chain up to None; planted exceptions boom() (Boom) and kboom() (KeyError) at "
         "every evaluation point k; enable_loop on / off / re-enabled or left alone by <%page>.  A case = (template, "
         "crash point, configuration); non-trivial when the template has a control structure and the render is not "
         "the crash-free one or the template uses `loop`; distinct = distinct (template, k, configuration)")
@@ -67,8 +70,8 @@ ASSUMPTIONS = [
     "`_FOR_LOOP` (the regex that splits a `% for` header) is a parameter of the Lean model: the harness supplies "
     "target and iterable of the generated header",
     "the shared specification renderer (Codegen/Spec.lean) gives a nested def / <%call> body no enclosing loop; "
-    "templates in which a closure reads the enclosing `loop` are compared with the Lean pipeline (tgt run) and the "
-    "native reference only, not with `tgt spec`",
+    "the shared target model keeps one dynamic loop stack: templates in which a closure reads the enclosing `loop` "
+    "are compared with the native reference only, not with `tgt run` / `tgt spec`",
 ]
 TRUSTED_EXTRA = ["C03: harness/c03_gen.py (generator, source renderer, native-Python translation = oracle, lowering "
                  "to the shared target grammar, control skeleton), harness/c03_rt.py, harness/target_canon.py"]
@@ -315,10 +318,28 @@ def stream_loopctx(ctx, drv):
             back = stack._exit()
             if back is not outer:
                 ctx.broke("corr.loopctx", "LoopStack._exit() did not return the enclosing context")
+    # `parent`, starting from an EMPTY stack: the outermost context has parent None, the chain of a context at
+    # depth d has d-1 links and ends in None
+    for depth in range(1, 6):
+        stack = runtime.LoopStack()
+        ctxs = [stack._enter([depth, i]) for i in range(depth)]
+        top = ctxs[-1]
+        chain = []
+        p = top.parent
+        while p is not None and len(chain) < 10:
+            chain.append(ctxs.index(p) if p in ctxs else "not-a-LoopContext:" + type(p).__name__)
+            p = getattr(p, "parent", None) if p in ctxs else None
+        reqs.append("ctl parents %d" % depth)
+        exp.append(("%d %d %s" % (len(chain), 1 if top.parent is None else 0, " ".join(str(x) for x in chain))).rstrip()
+                   if chain else "0 %d " % (1 if top.parent is None else 0))
+        for _ in range(depth):
+            stack._exit()
+        if stack.stack:
+            ctx.broke("corr.loopctx", "LoopStack not empty after as many _exit as _enter")
     outs = drv.ask_many(reqs)
     for q, o, e in zip(reqs, outs, exp):
         st["cases"] += 1
-        if o != e:
+        if o.rstrip() != e.rstrip():
             ctx.disagree("corr.loopctx", {"input": q}, o, e)
 
 
@@ -934,16 +955,18 @@ def behaviour_corr(ctx, drv, pending):
     outs = drv.ask_many([model_req("run", low, k) for _, low, _, k, _ in pending])
     outs2 = drv.ask_many([model_req("spec", low, k) for _, low, _, k, _ in pending])
     for (body, low, cfg, k, real), o, o2 in zip(pending, outs, outs2):
+        if closure_reads_loop(body):
+            # the shared target model keeps ONE dynamic loop stack (a `<%call>` body run from a callee that owns a
+            # LoopStack sees the callee's, not the lexically enclosing one) and the shared specification renderer
+            # gives a nested callable no enclosing loop; C03 reads `loop` in a closure lexically, as Python's
+            # closures do - judged by oracle.native
+            ctx.branch("model:skipped-closure-reads-loop")
+            continue
         st["cases"] += 1
         m = parse_model(o)
         case = {"input": G.to_source(body, cfg.page), "tree": body, "k": k, "config": cfg.to_json()}
         if (real[0], real[1], real[2]) != m:
             ctx.disagree("corr.behaviour", case, m, real[:3])
-        if closure_reads_loop(body):
-            # the shared specification renderer gives a nested callable no enclosing loop; C03 reads `loop` in a
-            # closure lexically (judged by oracle.native)
-            ctx.branch("spec:skipped-closure-reads-loop")
-            continue
         st2["cases"] += 1
         s = parse_model(o2)
         if (real[0], real[1]) != s[:2]:
@@ -1081,6 +1104,11 @@ def handwritten(ctx):
         ("several-excepts", "% try:\n${kboom()}\n% except Boom:\nB\n% except KeyError:\nK\n% except:\nO\n% endtry\n"
                             "% try:\n${boom()}\n% except KeyError:\nK\n% except Exception:\nE\n% endtry\n", {"__k": 0},
          "K\n\n", None),
+        ("outermost-parent", "% for a in [1, 2]:\n${loop.parent is None}${bool(loop.parent)}"
+                             "${loop.parent.index if loop.parent else -1}${pdepth(loop)}\\\n"
+                             "% for b in [3]:\n(${loop.parent is None}${bool(loop.parent)}"
+                             "${loop.parent.index if loop.parent else -1}${pdepth(loop)})\\\n% endfor\n% endfor\n", {},
+         "TrueFalse-10(FalseTrue01)TrueFalse-10(FalseTrue11)", None),
         ("loop-after-try", "% for a in [1, 2]:\n% try:\n% for b in [7, 8]:\n${loop.index}${boom()}\n% endfor\n% except Boom:\n"
                            "!${loop.index}\n% endtry\n% endfor\n", {"__k": 1}, "0\n1!0\n0\n1\n", None),
         ("modcode-only-suite", "% if x:\n<%! import os %>\\\n% endif\nok", {"x": 1}, "ok", None),
